@@ -207,6 +207,10 @@ def structure():
 
 def run(ctx):
     """translate + compile + bridge + structure; registers proof obligations on ctx"""
+    import skeleton
+    nm = skeleton.slice_names(PBL_SLICES)
+    skeleton.check_names(ctx, "pbl", PBL(), [VP, "psi", "phi"], nm)
+    skeleton.check_names(ctx, "km_copies", KM(), ["_phiM", "_phiC", "_psiM"], skeleton.slice_names(KM_SLICES))
     try:
         text = generate()
     except py2coq.TranslateError as e:
